@@ -312,6 +312,12 @@ func (v *VC) ev(e SExpr, env *SpecEnv) TV {
 		for i, n := range x.Vars {
 			qn := "q_" + n
 			srt, typ := specSort(x.Types[i])
+			if typ == nil {
+				if gt := v.lookupGoType(env.fn, x.Types[i]); gt != nil {
+					typ = gt
+					srt = v.sortOf(gt)
+				}
+			}
 			ne.bound[n] = TV{T: qn, Typ: typ, Sort: srt}
 			decl = append(decl, fmt.Sprintf("(%s %s)", qn, srt))
 		}
@@ -505,6 +511,24 @@ func (v *VC) evCall(x SCall, env *SpecEnv) TV {
 		hi := v.ev(x.Args[2], env)
 		v.useStrSub()
 		return TV{T: fmt.Sprintf("(str.sub %s %s %s)", a.T, lo.T, hi.T), Typ: tString}
+	case "cast":
+		// cast(x, "*pkg.T"): the pointer stored in interface value x, viewed as *pkg.T
+		a := v.ev(x.Args[0], env)
+		tn, ok := x.Args[1].(SStr)
+		if !ok {
+			specPanic("cast needs a type name")
+		}
+		gt := v.lookupGoType(env.fn, tn.V)
+		if gt == nil {
+			specPanic("cast: unknown type %s", tn.V)
+		}
+		if v.sortTV(a) == "Iface" {
+			return TV{T: "(ip-val " + a.T + ")", Typ: gt}
+		}
+		return TV{T: a.T, Typ: gt}
+	case "ifaceptr":
+		a := v.ev(x.Args[0], env)
+		return TV{T: "(iface-ptr " + a.T + ")", Sort: "Ptr"}
 	case "baseof":
 		a := v.ev(x.Args[0], env)
 		return TV{T: "(s-base " + a.T + ")", Sort: "Ptr"}
@@ -621,6 +645,47 @@ func (v *VC) evMethod(x SMethod, env *SpecEnv) TV {
 	}
 	specPanic("method not pure: %s.%s", recv.Typ.String(), x.Name)
 	return TV{}
+}
+
+// lookupGoType resolves "T" or "pkg.T" (optionally with a leading *) in the scope of fn's package.
+func (v *VC) lookupGoType(fn *ssa.Function, name string) types.Type {
+	if fn == nil || fn.Pkg == nil {
+		return nil
+	}
+	star := strings.HasPrefix(name, "*")
+	name = strings.TrimPrefix(name, "*")
+	var tp *types.Package = fn.Pkg.Pkg
+	tn := name
+	if i := strings.Index(name, "."); i > 0 {
+		pn := name[:i]
+		tn = name[i+1:]
+		tp = nil
+		for _, imp := range fn.Pkg.Pkg.Imports() {
+			if imp.Name() == pn {
+				tp = imp
+			}
+		}
+		if tp == nil {
+			for _, p := range v.P.prog.AllPackages() {
+				if p.Pkg.Name() == pn {
+					tp = p.Pkg
+					break
+				}
+			}
+		}
+	}
+	if tp == nil {
+		return nil
+	}
+	o, ok := tp.Scope().Lookup(tn).(*types.TypeName)
+	if !ok {
+		return nil
+	}
+	var t types.Type = o.Type()
+	if star {
+		t = types.NewPointer(t)
+	}
+	return t
 }
 
 // arraySorts splits "(Array K V)" into K and V.
